@@ -1,4 +1,5 @@
 import GmqttVerif.Proofs.BrokerInv
+import GmqttVerif.Proofs.BrokerInbound
 /-
   Vocabulary and helper lemmas for the broker-level half of C07 (`Properties/C07Broker.lean` holds the property
   theorems only): how the wire-level broker model (`Model/Broker.lean`) updates its retained map `B.retained`
@@ -49,7 +50,7 @@ theorem retGet_retStore (ret : List (String × Msg)) (m : Msg) (t : String) :
     · subst ht
       by_cases hp : m.plen = 0
       · have hp' : (m.plen == 0) = true := by simpa using hp
-        simp only [hr, hp, hp', if_true, and_self]
+        simp only [hr, hp, if_true, and_self]
         exact retGet_filter_self ret m.topic
       · have hp' : (m.plen == 0) = false := by simpa using hp
         simp only [hr, hp, hp', if_true, if_false, and_self, Bool.false_eq_true]
@@ -62,7 +63,8 @@ theorem retGet_retStore (ret : List (String × Msg)) (m : Msg) (t : String) :
         simp only [hr, ht, hp', if_true, and_false, if_false, Bool.false_eq_true]
         rw [retGet_cons, if_neg ht]
         exact retGet_filter_ne ret _ _ ht
-  · simp only [hr, false_and, if_false]
+  · have hr' : m.retained = false := by simpa using hr
+    simp [hr']
 
 /-- the entry of topic `t` after the messages `ms` were accepted in this order, starting from entry `cur` -/
 def lastValue (t : String) : List Msg → Option Msg → Option Msg
@@ -166,5 +168,1040 @@ theorem RetOK.mem_iff {ret : List (String × Msg)} (h : RetOK ret) (t : String) 
         · exact absurd (by rw [← e]) hk
         · exact hm
       · exact .inr
+
+/-! ### which steps touch the retained map: accepted PUBLISHes and wills, nothing else -/
+
+/-- `w` is a will registered in `b`: the will of a stored session, or a delayed will that is pending -/
+def IsWill (b : B) (w : Msg) : Prop :=
+  (∃ s ∈ b.sessions, s.will = some w) ∨ (∃ x ∈ b.pendingWills, x.2.1 = w)
+
+/-- `b'.retained` results from `b.retained` by storing (`retStore`) wills registered in `b`, one after the other -/
+def WillsOnly (b b' : B) : Prop :=
+  ∃ ws : List Msg, (∀ w ∈ ws, IsWill b w) ∧ b'.retained = ws.foldl retStore b.retained
+
+/-- no will registered in `b` has RETAIN=1 -/
+def NoRetainedWill (b : B) : Prop := ∀ w, IsWill b w → w.retained = false
+
+theorem retStore_not_retained (ret : List (String × Msg)) (m : Msg) (h : m.retained = false) : retStore ret m = ret := by
+  simp [retStore, h]
+
+theorem WillsOnly.eq_of_noRetainedWill {b b' : B} (h : WillsOnly b b') (hn : NoRetainedWill b) :
+    b'.retained = b.retained := by
+  obtain ⟨ws, hws, e⟩ := h
+  rw [e]
+  clear e
+  induction ws generalizing b with
+  | nil => rfl
+  | cons w ws ih =>
+    rw [List.foldl_cons, retStore_not_retained _ _ (hn w (hws w List.mem_cons_self))]
+    exact ih hn (fun x hx => hws x (List.mem_cons_of_mem _ hx))
+
+theorem WillsOnly.of_eq {b b' : B} (h : b'.retained = b.retained) : WillsOnly b b' := ⟨[], (fun _ hw => nomatch hw), h⟩
+
+/-- progress of a step that started in `b0`: so far wills of `b0` were stored, and every will registered now was
+    registered in `b0` -/
+structure Fired (b0 b : B) : Prop where
+  sub : ∀ w, IsWill b w → IsWill b0 w
+  ret : WillsOnly b0 b
+
+theorem Fired.refl (b : B) : Fired b b := ⟨fun _ h => h, .of_eq rfl⟩
+
+/-- a sub-step that neither touches the retained map nor registers a new will -/
+theorem Fired.frame {b0 b b' : B} (h : Fired b0 b) (hr : b'.retained = b.retained)
+    (hs : ∀ s' ∈ b'.sessions, ∀ w, s'.will = some w → IsWill b w)
+    (hp : ∀ x ∈ b'.pendingWills, IsWill b x.2.1) : Fired b0 b' := by
+  refine ⟨?_, ?_⟩
+  · rintro w (⟨s', hs', hw⟩ | ⟨x, hx, rfl⟩)
+    · exact h.sub w (hs s' hs' w hw)
+    · exact h.sub _ (hp x hx)
+  · obtain ⟨ws, hws, e⟩ := h.ret
+    exact ⟨ws, hws, hr.trans e⟩
+
+theorem Fired.same {b0 b b' : B} (h : Fired b0 b) (hr : b'.retained = b.retained) (hs : b'.sessions = b.sessions)
+    (hp : b'.pendingWills = b.pendingWills) : Fired b0 b' :=
+  h.frame hr (fun s' hs' _ hw => .inl ⟨s', hs ▸ hs', hw⟩) (fun x hx => .inr ⟨x, hp ▸ hx, rfl⟩)
+
+/-- a sub-step that drops sessions / pending wills -/
+theorem Fired.sublist {b0 b b' : B} (h : Fired b0 b) (hr : b'.retained = b.retained)
+    (hs : ∀ s' ∈ b'.sessions, s' ∈ b.sessions) (hp : ∀ x ∈ b'.pendingWills, x ∈ b.pendingWills) : Fired b0 b' :=
+  h.frame hr (fun s' hs' _ hw => .inl ⟨s', hs s' hs', hw⟩) (fun x hx => .inr ⟨x, hp x hx, rfl⟩)
+
+theorem Fired.setSess {b0 b : B} (h : Fired b0 b) (s s0 : Sess) (hs0 : s0 ∈ b.sessions) (hw : s.will = s0.will) :
+    Fired b0 (b.setSess s) := by
+  refine h.frame rfl (fun s' hs' w hw' => ?_) (fun x hx => .inr ⟨x, hx, rfl⟩)
+  rcases mem_setSess' hs' with rfl | ⟨hm, _⟩
+  · exact .inl ⟨s0, hs0, hw ▸ hw'⟩
+  · exact .inl ⟨s', hm, hw'⟩
+
+theorem Fired.setSess_of {b0 b : B} (h : Fired b0 b) {cid : String} (s s0 : Sess) (hs0 : b.sess? cid = some s0)
+    (hw : s.will = s0.will) : Fired b0 (b.setSess s) :=
+  h.setSess s s0 (sess?_some hs0).1 hw
+
+theorem Fired.enq {b0 b b' : B} (h : Fired b0 b) (e : Enq b b') : Fired b0 b' := by
+  refine h.frame e.retained (fun s' hs' w hw => ?_) (fun x hx => .inr ⟨x, e.pendingWills ▸ hx, rfl⟩)
+  obtain ⟨s, hs, es⟩ := e.sess s' hs'
+  exact .inl ⟨s, hs, by rw [es] at hw; exact hw⟩
+
+theorem willRetain_retained (b : B) (m : Msg) : (b.willRetain m).retained = retStore b.retained m := by
+  unfold B.willRetain retStore
+  split
+  · split <;> rfl
+  · rfl
+
+theorem willRetain_sessions (b : B) (m : Msg) : (b.willRetain m).sessions = b.sessions := by
+  unfold B.willRetain
+  split
+  · split <;> rfl
+  · rfl
+
+theorem willRetain_pendingWills (b : B) (m : Msg) : (b.willRetain m).pendingWills = b.pendingWills := by
+  unfold B.willRetain
+  split
+  · split <;> rfl
+  · rfl
+
+/-- storing one more will of `b0` -/
+theorem Fired.store {b0 b b' : B} (h : Fired b0 b) (m : Msg) (hm : IsWill b0 m) (hr : b'.retained = retStore b.retained m)
+    (hs : b'.sessions = b.sessions) (hp : b'.pendingWills = b.pendingWills) : Fired b0 b' := by
+  refine ⟨?_, ?_⟩
+  · rintro w (⟨s', hs', hw⟩ | ⟨x, hx, rfl⟩)
+    · exact h.sub w (.inl ⟨s', hs ▸ hs', hw⟩)
+    · exact h.sub _ (.inr ⟨x, hp ▸ hx, rfl⟩)
+  · obtain ⟨ws, hws, e⟩ := h.ret
+    refine ⟨ws ++ [m], ?_, ?_⟩
+    · intro w hw
+      rcases List.mem_append.1 hw with hw | hw
+      · exact hws w hw
+      · rw [List.mem_singleton.1 hw]; exact hm
+    · rw [List.foldl_append, ← e, hr]; rfl
+
+theorem Fired.sendWill {b0 b : B} (h : Fired b0 b) (cid : String) (m : Msg) (hm : IsWill b0 m) :
+    Fired b0 (b.sendWill cid m) := by
+  rw [sendWill_eq]
+  exact (h.store m hm (willRetain_retained b m) (willRetain_sessions b m) (willRetain_pendingWills b m)).enq
+    (enq_deliverMsg _ _ _ _ _)
+
+theorem Fired.foldl {α : Type} {b0 : B} (f : B → α → B) (hf : ∀ b a, Fired b0 b → Fired b0 (f b a)) (l : List α) {b : B}
+    (h : Fired b0 b) : Fired b0 (l.foldl f b) := by
+  induction l generalizing b with
+  | nil => exact h
+  | cons x xs ih => exact ih (hf b x h)
+
+theorem Fired.terminateS {b0 b : B} (h : Fired b0 b) (cid : String) : Fired b0 (b.terminateS cid) := by
+  have h1 : Fired b0 (b.terminate cid) :=
+    h.sublist rfl (fun s' hs' => (List.mem_filter.1 hs').1) (fun x hx => hx)
+  cases hw : b.willOf? cid with
+  | none => rw [terminateS_none b cid hw]; exact h1
+  | some x =>
+    rw [terminateS_some b cid x hw]
+    have hx : x ∈ b.pendingWills := List.mem_of_find?_eq_some hw
+    have h2 : Fired b0 ((b.terminate cid).dropWill cid) :=
+      h1.sublist rfl (fun s' hs' => hs') (fun y hy => (List.mem_filter.1 hy).1)
+    exact h2.sendWill cid x.2.1 (h.sub _ (.inr ⟨x, hx, rfl⟩))
+
+theorem Fired.willStep {b0 b : B} (h : Fired b0 b) (c : Cli) (s : Sess) (store : Bool)
+    (hs : ∀ w, s.will = some w → IsWill b w) : Fired b0 (willStep b c s store) := by
+  unfold Broker.willStep
+  split
+  · split
+    · exact h
+    · next w hw =>
+      simp only
+      generalize (if s.expiry ≤ s.willDelay then s.expiry else s.willDelay) = delay
+      split
+      · refine h.frame rfl (fun s' hs' w' hw' => .inl ⟨s', hs', hw'⟩) (fun x hx => ?_)
+        rcases List.mem_append.1 hx with hx | hx
+        · exact .inr ⟨x, (List.mem_filter.1 hx).1, rfl⟩
+        · rw [List.mem_singleton.1 hx]; exact hs w hw
+      · exact h.sendWill c.cid w (h.sub w (hs w hw))
+  · exact h
+
+theorem Fired.dropCli {b0 b : B} (h : Fired b0 b) (conn : String) : Fired b0 (b.dropCli conn) := h.same rfl rfl rfl
+
+theorem Fired.unregister {b0 b : B} (h : Fired b0 b) (conn : String) (force : Bool) : Fired b0 (b.unregister conn force) := by
+  cases hc : b.cli? conn with
+  | none => rw [unregister_none b conn force hc]; exact h
+  | some c =>
+    rw [unregister_eq b conn force c hc]
+    cases hs : b.sess? c.cid with
+    | none => exact (h.dropCli conn).terminateS _
+    | some s0 =>
+      simp only
+      have hwill : ({ unregSess c s0 force with queue := (unregSess c s0 force).queue.close } : Sess).will = s0.will :=
+        unregSess_will c s0 force
+      have h1 : Fired b0 ((b.dropCli conn).setSess { unregSess c s0 force with queue := (unregSess c s0 force).queue.close }) :=
+        (h.dropCli conn).setSess _ s0 (sess?_some hs).1 hwill
+      have h2 := h1.willStep c { unregSess c s0 force with queue := (unregSess c s0 force).queue.close }
+        (!force && (unregSess c s0 force).expiry != 0)
+        (fun w hw => .inl ⟨_, List.mem_cons_self, hw⟩)
+      split
+      · exact h2.same rfl rfl rfl
+      · exact h2.terminateS _
+
+theorem Fired.kick {b0 b : B} (h : Fired b0 b) (conn : String) (code : Option Nat) : Fired b0 (b.kick conn code) := by
+  obtain ⟨o, ho⟩ := kick_eq b conn code
+  rw [ho]
+  exact (h.same (b' := { b with out := o }) rfl rfl rfl).unregister conn false
+
+theorem Fired.emit {b0 b : B} (h : Fired b0 b) (conn : String) (poll : Bool) (p : Pkt) : Fired b0 (b.emit conn poll p) :=
+  h.same rfl rfl rfl
+
+theorem Fired.setCli {b0 b : B} (h : Fired b0 b) (c : Cli) : Fired b0 (b.setCli c) := h.same rfl rfl rfl
+
+theorem Fired.closeIn {b0 b : B} (h : Fired b0 b) (conn : String) : Fired b0 (b.closeIn conn) := by
+  unfold B.closeIn
+  split
+  · exact h
+  · exact (h.unregister conn false).emit _ _ _
+
+theorem Fired.apiTerminate {b0 b : B} (h : Fired b0 b) (cid : String) : Fired b0 (b.apiTerminate cid) := by
+  unfold B.apiTerminate
+  split
+  · exact (h.emit _ _ _).unregister _ true
+  · split
+    · exact h.terminateS cid
+    · exact h
+
+theorem Fired.apiExpire {b0 b : B} (h : Fired b0 b) : Fired b0 b.apiExpire := by
+  unfold B.apiExpire
+  exact Fired.foldl _ (fun bb cd hb => hb.terminateS cd.1) _ h
+
+theorem Fired.foldl_sendWill {b0 : B} (due : List (String × Msg × Nat)) (hdue : ∀ x ∈ due, IsWill b0 x.2.1) {b1 : B}
+    (h1 : Fired b0 b1) : Fired b0 (due.foldl (fun bb w => bb.sendWill w.1 w.2.1) b1) := by
+  induction due generalizing b1 with
+  | nil => exact h1
+  | cons x xs ih =>
+    rw [List.foldl_cons]
+    exact ih (fun y hy => hdue y (List.mem_cons_of_mem _ hy)) (h1.sendWill x.1 x.2.1 (hdue x List.mem_cons_self))
+
+theorem Fired.sleep {b0 b : B} (h : Fired b0 b) (ms : Nat) : Fired b0 (b.sleep ms) := by
+  unfold B.sleep
+  simp only
+  refine Fired.foldl_sendWill _ ?_ ?_
+  · exact fun x hx => h.sub _ (.inr ⟨x, (List.mem_filter.1 hx).1, rfl⟩)
+  · exact h.sublist rfl (fun s' hs' => hs') (fun x hx => (List.mem_filter.1 hx).1)
+
+/-! ### `connect` -/
+
+theorem Fired.afterDisplace {b0 b : B} (h : Fired b0 b) (cid : String) : Fired b0 (afterDisplace b cid) := by
+  rcases afterDisplace_def b cid with e | ⟨old, _, e⟩
+  · rw [e]; exact h
+  · rw [e]; exact h.kick _ _
+
+theorem Fired.endOld {b0 b : B} (h : Fired b0 b) (r : ConnectReq) : Fired b0 (endOld b r) := by
+  unfold Broker.endOld
+  split
+  · split
+    · exact h.terminateS _
+    · exact h.sublist rfl (fun s' hs' => hs') (fun x hx => (List.mem_filter.1 hx).1)
+  · exact h
+
+theorem connect_retained (b : B) (r : ConnectReq) :
+    (b.connect r).retained = (endOld (afterDisplace b r.cid) r).retained := by
+  rw [connect_eq, (replay_frame 100000 _ r.conn).retained]
+  rfl
+
+theorem willsOnly_connect (b : B) (r : ConnectReq) : WillsOnly b (b.connect r) := by
+  obtain ⟨ws, hws, e⟩ := (((Fired.refl b).afterDisplace r.cid).endOld r).ret
+  exact ⟨ws, hws, (connect_retained b r).trans e⟩
+
+/-! ### steps that never touch the retained map -/
+
+theorem foldl_retained {α : Type} (f : B → α → B) (hf : ∀ b a, (f b a).retained = b.retained) (l : List α) (b : B) :
+    (l.foldl f b).retained = b.retained := by
+  induction l generalizing b with
+  | nil => rfl
+  | cons x xs ih => rw [List.foldl_cons, ih, hf]
+
+theorem unsubscribe_retained (b : B) (conn : String) (pid : Nat) (topics : List String) :
+    (b.unsubscribe conn pid topics).retained = b.retained := by
+  unfold B.unsubscribe
+  split
+  · rfl
+  · show (List.foldl _ b topics).retained = _
+    refine foldl_retained _ ?_ topics b
+    intro _ _
+    rfl
+
+/-- case analysis for the handlers that only touch session / connection records and the output -/
+macro "ret_cases" : tactic => `(tactic| repeat' (first | rfl | split | simp only []))
+
+theorem pubrelIn_retained (b : B) (conn : String) (pid : Nat) : (b.pubrelIn conn pid).retained = b.retained := by
+  unfold B.pubrelIn
+  ret_cases
+
+theorem ackOut_retained (b : B) (conn : String) (id : Nat) : (b.ackOut conn id).retained = b.retained := by
+  unfold B.ackOut
+  ret_cases
+
+theorem pubrecOut_retained (b : B) (conn : String) (id code : Nat) : (b.pubrecOut conn id code).retained = b.retained := by
+  unfold B.pubrecOut
+  split
+  · rfl
+  · split
+    · exact ackOut_retained b conn id
+    · ret_cases
+
+theorem disconnectIn_retained (b : B) (conn : String) (se : Option Nat) (code : Nat) :
+    (b.disconnectIn conn se code).retained = b.retained := by
+  unfold B.disconnectIn
+  ret_cases
+
+theorem apiBackdate_retained (b : B) (cid : String) (secs : Nat) : (b.apiBackdate cid secs).retained = b.retained := by
+  unfold B.apiBackdate
+  split <;> rfl
+
+theorem apiPublish_retained (b : B) (m : Msg) : (b.deliverMsg "" m []).1.retained = b.retained :=
+  (enq_deliverMsg b "" m [] []).retained
+
+theorem pumpRound_retained (b : B) (conn : String) (c : Cli) (s : Sess) (q' : Queue.Q) (out : List Queue.Elem) :
+    (b.pumpRound conn c s q' out).retained = b.retained := by
+  obtain ⟨hpe, _⟩ := foldl_emitPub_out conn (fun e => b.pubPkt c e (b.ats.getD e.tag b.now)) out b
+  obtain ⟨cl, o, e⟩ := hpe.eq
+  unfold B.pumpRound B.pumpEmit
+  simp only [e]
+  rfl
+
+theorem pump_retained (b : B) (conn : String) (fuel : Nat) : (b.pump conn fuel).retained = b.retained := by
+  obtain ⟨rs, h⟩ := pump_trace fuel b conn
+  generalize b.pump conn fuel = b' at h
+  induction h with
+  | stop => rfl
+  | round b c s q' out rs b' _ _ ih => exact ih.trans (pumpRound_retained b conn c s q' out)
+
+theorem pumpAll_retained (b : B) : b.pumpAll.retained = b.retained := by
+  unfold B.pumpAll
+  exact foldl_retained _ (fun bb cn => pump_retained bb cn 10000) _ b
+
+/-! ### `publish` -/
+
+/-- none of the refusals of `B.publish` applies to the PUBLISH `r` arriving on the connection `c` -/
+structure NotRefused (b : B) (c : Cli) (r : PubReq) : Prop where
+  topic : TopicOk b c r
+  quota : ¬ (c.v = 5 ∧ r.qos > 0 ∧ c.quota = 0)
+  size : ¬ (c.v = 5 ∧ b.cfg.maxPacket ≠ 0 ∧ r.size > b.cfg.maxPacket)
+  retain : ¬ (b.cfg.retainAvail = false ∧ r.retain = true)
+
+theorem topicOk_of_aliasRes {b : B} {c : Cli} {r : PubReq} {t : String} {c2 : Cli}
+    (h : aliasRes b.cfg (pubCli c r) r = .ok (t, c2)) : TopicOk b c r := by
+  unfold aliasRes at h
+  rw [pubCli_v, pubCli_aliasIn] at h
+  by_cases hv : c.v = 5
+  · have hv' : (c.v == 5) = true := by simpa using hv
+    rw [if_pos hv'] at h
+    cases ha : r.alias with
+    | none =>
+      rw [ha] at h
+      simp only at h
+      split at h
+      · cases h
+      · next ht =>
+        exact ⟨fun a _ h' => (by rw [ha] at h'; cases h'), fun ht' => absurd (by simpa using ht') ht⟩
+    | some a =>
+      rw [ha] at h
+      simp only at h
+      split at h
+      · cases h
+      · next hbad =>
+        have hok : a ≠ 0 ∧ a ≤ b.cfg.aliasMax := by simpa [Nat.not_lt] using hbad
+        refine ⟨fun a' _ h' => (by rw [ha] at h'; cases h'; exact hok), fun ht => ⟨hv, a, ?_⟩⟩
+        have ht' : (r.topic == "") = true := by simpa using ht
+        rw [if_pos ht'] at h
+        split at h
+        · next p1 t1 hf =>
+          split at h
+          · cases h
+          · next hne => exact ⟨(p1, t1), ha, hf, by simpa using hne⟩
+        · cases h
+  · have hv' : (c.v == 5) = false := by simpa using hv
+    rw [hv'] at h
+    simp only [Bool.false_eq_true, if_false] at h
+    split at h
+    · cases h
+    · next ht =>
+      exact ⟨fun a hv5 _ => absurd hv5 hv, fun ht' => absurd (by simpa using ht') ht⟩
+
+/-- `B.publish` by cases: refused (the connection is closed with a reason code), or accepted -/
+theorem publish_cases (b : B) (r : PubReq) (c : Cli) (hc : b.cli? r.conn = some c) :
+    (¬ NotRefused b c r ∧ ∃ b1 code, b.publish r = b1.kick r.conn (some code) ∧ (b1 = b ∨ b1 = b.setCli (pubCli c r))) ∨
+    (NotRefused b c r ∧ ∃ t c2, aliasRes b.cfg (pubCli c r) r = .ok (t, c2) ∧
+      b.publish r =
+        match b.sess? c.cid with
+        | none => (b.setCli (pubCli c r)).setCli c2
+        | some s => ((b.setCli (pubCli c r)).setCli c2).publishTail c2 { r with topic := t } s) := by
+  rw [publish_eq]
+  simp only [hc]
+  split
+  · next h0 =>
+    refine .inl ⟨fun hn => ?_, b, _, rfl, .inl rfl⟩
+    simp only [Bool.and_eq_true, beq_iff_eq] at h0
+    exact (hn.topic.alias 0 h0.1 h0.2).1 rfl
+  · split
+    · next h0' =>
+      refine .inl ⟨fun hn => ?_, b, _, rfl, .inl rfl⟩
+      simp only [Bool.and_eq_true, beq_iff_eq, Bool.or_eq_true, bne_iff_ne, ne_eq] at h0'
+      obtain ⟨hv, a, p, ha, _⟩ := hn.topic.topic h0'.1
+      rcases h0'.2 with h2 | h2
+      · exact h2 hv
+      · rw [ha] at h2; cases h2
+    · split
+      · next h1 =>
+        refine .inl ⟨fun hn => hn.quota ?_, b, _, rfl, .inl rfl⟩
+        simpa [Bool.and_eq_true, beq_iff_eq, decide_eq_true_eq, and_assoc] using h1
+      · next h1 =>
+        split
+        · next h2 =>
+          refine .inl ⟨fun hn => hn.size ?_, _, _, rfl, .inr rfl⟩
+          rw [pubCli_v] at h2
+          have h2' : (c.v == 5 && b.cfg.maxPacket != 0 && decide (r.size > b.cfg.maxPacket)) = true := h2
+          simpa [Bool.and_eq_true, beq_iff_eq, decide_eq_true_eq, and_assoc] using h2'
+        · next h2 =>
+          split
+          · next h3 =>
+            refine .inl ⟨fun hn => hn.retain ?_, _, _, rfl, .inr rfl⟩
+            have h3' : (!b.cfg.retainAvail && r.retain) = true := h3
+            simpa using h3'
+          · next h3 =>
+            have hcfg : (b.setCli (pubCli c r)).cfg = b.cfg := rfl
+            rw [hcfg]
+            cases hres : aliasRes b.cfg (pubCli c r) r with
+            | error code =>
+              refine .inl ⟨fun hn => ?_, _, _, rfl, .inr rfl⟩
+              obtain ⟨t, c2, hok⟩ := aliasRes_of_topicOk hn.topic
+              rw [hres] at hok; cases hok
+            | ok tc =>
+              obtain ⟨t, c2⟩ := tc
+              refine .inr ⟨⟨topicOk_of_aliasRes hres, ?_, ?_, ?_⟩, t, c2, rfl, ?_⟩
+              · intro hq; apply h1
+                simpa [Bool.and_eq_true, beq_iff_eq, decide_eq_true_eq, and_assoc] using hq
+              · intro hq; apply h2
+                rw [pubCli_v]
+                show (c.v == 5 && b.cfg.maxPacket != 0 && decide (r.size > b.cfg.maxPacket)) = true
+                simpa [Bool.and_eq_true, beq_iff_eq, decide_eq_true_eq, and_assoc] using hq
+              · intro hq; apply h3
+                show (!b.cfg.retainAvail && r.retain) = true
+                simpa using hq
+              · have hcid : c2.cid = c.cid := by rw [(aliasRes_ok hres).2.1, pubCli_cid]
+                simp only [setCli_sess?, hcid]
+                cases b.sess? c.cid <;> rfl
+
+theorem pubAck_retained (b : B) (c : Cli) (r : PubReq) (m : Bool) : (b.pubAck c r m).retained = b.retained := by
+  unfold B.pubAck
+  ret_cases
+
+theorem pubDupQuota_retained (b : B) (c : Cli) (r : PubReq) (d : Bool) : (b.pubDupQuota c r d).retained = b.retained := by
+  unfold B.pubDupQuota
+  ret_cases
+
+theorem pubRetain_retained (b : B) (r : PubReq) : (b.pubRetain r false).retained = retStore b.retained (pubMsg r) := by
+  unfold B.pubRetain retStore pubMsg
+  cases r.retain
+  · rfl
+  · simp only [Bool.not_false, Bool.and_self, if_true]
+    split <;> rfl
+
+theorem pubRetain_dup (b : B) (r : PubReq) : (b.pubRetain r true).retained = b.retained := by
+  simp [B.pubRetain]
+
+/-- the retained map after an accepted PUBLISH: updated by the message, unless it is a retransmission of a QoS 2
+    PUBLISH that still awaits PUBREL -/
+theorem publishTail_retained (b : B) (c : Cli) (r : PubReq) (s : Sess) :
+    (b.publishTail c r s).retained =
+      if forwarded s.unack r.qos r.pid then retStore b.retained (pubMsg r) else b.retained := by
+  rw [publishTail_eq]
+  split
+  · simp only
+    rw [pubAck_retained, (enq_deliverMsg _ _ _ _ _).retained, pubRetain_retained]
+    rfl
+  · rw [pubAck_retained, pubDupQuota_retained]
+    rfl
+
+/-- the PUBLISH `r` is accepted in state `b` — it arrives on a connection that has a session, no refusal applies, and
+    it is not a retransmission of a QoS 2 PUBLISH whose packet id still awaits PUBREL — and `m` is the message built
+    from it (topic after alias resolution, QoS, RETAIN, DUP, payload tag and length, Message Expiry Interval) -/
+def Accepted (b : B) (r : PubReq) (m : Msg) : Prop :=
+  ∃ c s t c2, b.cli? r.conn = some c ∧ b.sess? c.cid = some s ∧ NotRefused b c r ∧
+    aliasRes b.cfg (pubCli c r) r = .ok (t, c2) ∧ forwarded s.unack r.qos r.pid = true ∧
+    m = pubMsg { r with topic := t }
+
+/-- the PUBLISH `r` is a QoS 2 retransmission: not refused, but its packet id still awaits PUBREL -/
+def Duplicate (b : B) (r : PubReq) : Prop :=
+  ∃ c s, b.cli? r.conn = some c ∧ b.sess? c.cid = some s ∧ NotRefused b c r ∧ forwarded s.unack r.qos r.pid = false
+
+/-- the PUBLISH `r` is refused: the connection is closed with a reason code -/
+def Refused (b : B) (r : PubReq) : Prop := ∃ c, b.cli? r.conn = some c ∧ ¬ NotRefused b c r
+
+theorem publish_of_notRefused (b : B) (r : PubReq) (c : Cli) (s : Sess) (hc : b.cli? r.conn = some c)
+    (hs : b.sess? c.cid = some s) (hn : NotRefused b c r) :
+    ∃ t c2, aliasRes b.cfg (pubCli c r) r = .ok (t, c2) ∧
+      (b.publish r).retained =
+        if forwarded s.unack r.qos r.pid then retStore b.retained (pubMsg { r with topic := t }) else b.retained := by
+  rcases publish_cases b r c hc with ⟨hr, _⟩ | ⟨_, t, c2, hres, e⟩
+  · exact absurd hn hr
+  · refine ⟨t, c2, hres, ?_⟩
+    rw [e, hs]
+    exact publishTail_retained _ c2 _ s
+
+theorem publish_accepted_retained {b : B} {r : PubReq} {m : Msg} (h : Accepted b r m) :
+    (b.publish r).retained = retStore b.retained m := by
+  obtain ⟨c, s, t, c2, hc, hs, hn, hres, hf, rfl⟩ := h
+  obtain ⟨t', c2', hres', e⟩ := publish_of_notRefused b r c s hc hs hn
+  rw [hres] at hres'
+  cases hres'
+  rw [e, if_pos hf]
+
+theorem publish_duplicate_retained {b : B} {r : PubReq} (h : Duplicate b r) : (b.publish r).retained = b.retained := by
+  obtain ⟨c, s, hc, hs, hn, hf⟩ := h
+  obtain ⟨t', c2', _, e⟩ := publish_of_notRefused b r c s hc hs hn
+  rw [e, hf]
+  rfl
+
+theorem publish_refused_willsOnly {b : B} {r : PubReq} (h : Refused b r) : WillsOnly b (b.publish r) := by
+  obtain ⟨c, hc, hr⟩ := h
+  rcases publish_cases b r c hc with ⟨_, b1, code, e, hb1⟩ | ⟨hn, _⟩
+  · rw [e]
+    rcases hb1 with rfl | rfl
+    · exact ((Fired.refl b1).kick _ _).ret
+    · exact (((Fired.refl b).setCli _).kick _ _).ret
+  · exact absurd hn hr
+
+/-- every PUBLISH: accepted (the message is stored), or the retained map changes by wills only (refusal closes the
+    connection) — in particular not at all for a duplicate -/
+theorem publish_retained_cases (b : B) (r : PubReq) :
+    (∃ m, Accepted b r m ∧ (b.publish r).retained = retStore b.retained m) ∨ WillsOnly b (b.publish r) := by
+  cases hc : b.cli? r.conn with
+  | none =>
+    refine .inr (.of_eq ?_)
+    rw [publish_eq, hc]
+  | some c =>
+    by_cases hn : NotRefused b c r
+    · cases hs : b.sess? c.cid with
+      | none =>
+        rcases publish_cases b r c hc with ⟨hr, _⟩ | ⟨_, t, c2, _, e⟩
+        · exact absurd hn hr
+        · refine .inr (.of_eq ?_)
+          rw [e, hs]
+          rfl
+      | some s =>
+        obtain ⟨t, c2, hres, e⟩ := publish_of_notRefused b r c s hc hs hn
+        cases hf : forwarded s.unack r.qos r.pid with
+        | true =>
+          have ha : Accepted b r (pubMsg { r with topic := t }) := ⟨c, s, t, c2, hc, hs, hn, hres, hf, rfl⟩
+          exact .inl ⟨_, ha, publish_accepted_retained ha⟩
+        | false => exact .inr (.of_eq (publish_duplicate_retained ⟨c, s, hc, hs, hn, hf⟩))
+    · exact .inr (publish_refused_willsOnly ⟨c, hc, hn⟩)
+
+/-! ### `subscribe`, taken apart -/
+
+/-- the Subscription Identifier in force for a SUBSCRIBE of connection `c` -/
+def subIdOf (cfg : Cfg) (c : Cli) (idProp : Nat) : Nat := if c.v == 5 && cfg.subIdAvail then idProp else 0
+
+/-- `subReq.Subscriptions` is a map keyed by the topic name: the LAST entry of the SUBSCRIBE with the name of `t`
+    supplies the options of the subscription -/
+def lastOf (topics : List SubTopic) (t : SubTopic) : SubTopic :=
+  match (topics.filter (fun x => x.name == t.name)).getLast? with | some x => x | none => t
+
+/-- the subscription record stored for the entry `t` of the SUBSCRIBE `topics` -/
+def subOf (topics : List SubTopic) (subID : Nat) (t : SubTopic) : Sub :=
+  { share := (splitShare t.name).1, filter := (splitShare t.name).2, qos := (lastOf topics t).qos,
+    nl := (lastOf topics t).nl, rap := (lastOf topics t).rap, rh := (lastOf topics t).rh, id := subID }
+
+/-- the SUBACK reason code of the entry `t` -/
+def subCode (cfg : Cfg) (c : Cli) (topics : List SubTopic) (subID : Nat) (t : SubTopic) : Nat :=
+  let code := (lastOf topics t).qos
+  let code := if c.v == 5 && (splitShare t.name).1 != "" && !cfg.sharedAvail then 0x9E else code
+  let code := if c.v == 5 && !cfg.subIdAvail && subID != 0 then 0xA1 else code
+  if c.v == 5 && !cfg.wildAvail && hasWildcard (splitShare t.name).2 then 0xA2 else code
+
+/-- client `cid` has a subscription with the share name and filter of `sub` -/
+def hasSub (subs : List (String × Sub)) (cid : String) (sub : Sub) : Bool :=
+  subs.any (fun cs => cs.1 == cid && cs.2.share == sub.share && cs.2.filter == sub.filter)
+
+/-- the subscription table after `sub` was stored for `cid` (replacing the one with the same share name and filter) -/
+def putSub (subs : List (String × Sub)) (cid : String) (sub : Sub) : List (String × Sub) :=
+  subs.filter (fun cs => !(cs.1 == cid && cs.2.share == sub.share && cs.2.filter == sub.filter)) ++ [(cid, sub)]
+
+/-- does the entry `t` replay retained messages: non-shared, and Retain Handling 0, or not 2 and the subscription
+    is new -/
+def replayGate (existed : Bool) (sub : Sub) (t : SubTopic) : Bool :=
+  sub.share == "" && ((!existed && t.rh != 2) || t.rh == 0)
+
+/-- the copy of the retained message `m` that is replayed for the subscription `sub` -/
+def replayCopy (sub : Sub) (m : Msg) : Msg :=
+  { m with qos := min m.qos sub.qos, dup := false, retained := sub.rap && m.retained }
+
+/-- the queue element under which the copy `m'` is added to the subscriber's queue -/
+def copyElem (now v tag : Nat) (m' : Msg) : Queue.Elem :=
+  { tag := tag, pub := true, id := 0, qos := m'.qos,
+    exp := if m'.expiry != 0 then some (now + m'.expiry * 1000) else none, size := totalBytes v m' }
+
+/-- one replayed copy is logged and added to the queue of `c`'s session -/
+def B.pushCopy (bb : B) (c : Cli) (m' : Msg) : B :=
+  match bb.sess? c.cid with
+  | none => bb
+  | some s =>
+    { (bb.setSess { s with queue := (s.queue.add bb.now (copyElem bb.now c.v bb.msgs.length m')).1 }) with
+      msgs := bb.msgs ++ [m'], ats := bb.ats ++ [bb.now] }
+
+/-- the copies the entry `t` (subscription record `sub`) replays from the retained map `ret`: the entries whose
+    topic matches the filter, in map order, one copy each — or nothing if the gate is closed -/
+def entryCopies (ret : List (String × Msg)) (existed : Bool) (sub : Sub) (t : SubTopic) : List Msg :=
+  if replayGate existed sub t then (ret.filter (fun tm => subMatches sub tm.1)).map (fun tm => replayCopy sub tm.2) else []
+
+/-- one entry of a SUBSCRIBE (the body of the loop of `B.subscribe`) -/
+def subEntry (c : Cli) (subID : Nat) (topics : List SubTopic) (acc : B × List Nat) (t : SubTopic) : B × List Nat :=
+  let b := acc.1
+  let sub := subOf topics subID t
+  let code := subCode b.cfg c topics subID t
+  if code >= 0x80 then (b, acc.2 ++ [code])
+  else
+    let existed := hasSub b.subs c.cid sub
+    let b := { b with subs := putSub b.subs c.cid sub }
+    let b :=
+      if replayGate existed sub t then
+        match b.sess? c.cid with
+        | none => b
+        | some _ =>
+          (b.retained.filter (fun tm => subMatches sub tm.1)).foldl (fun bb tm => bb.pushCopy c (replayCopy sub tm.2)) b
+      else b
+    (b, acc.2 ++ [code])
+
+theorem subscribe_eq (b : B) (conn : String) (pid : Nat) (topics : List SubTopic) (idProp : Nat) :
+    b.subscribe conn pid topics idProp =
+      match b.cli? conn with
+      | none => b
+      | some c =>
+        if c.v == 5 && !b.cfg.subIdAvail && subIdOf b.cfg c idProp != 0 then b.kick conn (some 0xA1)
+        else
+          (topics.foldl (subEntry c (subIdOf b.cfg c idProp) topics) (b, [])).1.emit conn false
+            (.suback pid (topics.foldl (subEntry c (subIdOf b.cfg c idProp) topics) (b, [])).2) := by
+  rfl
+
+/-- the branch of `B.subscribe` that closes the connection with 0xA1 is dead: without `subscription_identifier_available`
+    the identifier in force is 0 -/
+theorem subscribe_no_kick (cfg : Cfg) (c : Cli) (idProp : Nat) :
+    (c.v == 5 && !cfg.subIdAvail && subIdOf cfg c idProp != 0) = false := by
+  unfold subIdOf
+  cases c.v == 5 <;> cases cfg.subIdAvail <;> simp
+
+/-- the queue after the copies were added one by one (tags count up from `tag`) -/
+def pushQ (now v : Nat) : Queue.Q → Nat → List Msg → Queue.Q
+  | q, _, [] => q
+  | q, tag, m' :: ms => pushQ now v (q.add now (copyElem now v tag m')).1 (tag + 1) ms
+
+theorem pushQ_append (now v : Nat) (q : Queue.Q) (tag : Nat) (l1 l2 : List Msg) :
+    pushQ now v q tag (l1 ++ l2) = pushQ now v (pushQ now v q tag l1) (tag + l1.length) l2 := by
+  induction l1 generalizing q tag with
+  | nil => rfl
+  | cons m ms ih =>
+    simp only [List.cons_append, pushQ, List.length_cons]
+    rw [ih]
+    congr 1
+    omega
+
+def B.pushCopies (b : B) (c : Cli) (copies : List Msg) : B := copies.foldl (fun bb m' => bb.pushCopy c m') b
+
+/-- `b'` is `b` after the copies were logged (`msgs`, `ats`) and added to the queue of the session `s` of `c`;
+    nothing else differs (the order of the session list aside) -/
+structure Pushed (c : Cli) (b : B) (s : Sess) (copies : List Msg) (b' : B) : Prop where
+  retained : b'.retained = b.retained
+  msgs : b'.msgs = b.msgs ++ copies
+  ats : b'.ats = b.ats ++ List.replicate copies.length b.now
+  sess : b'.sess? c.cid = some { s with queue := pushQ b.now c.v s.queue b.msgs.length copies }
+  others : ∀ cid, cid ≠ c.cid → b'.sess? cid = b.sess? cid
+  subs : b'.subs = b.subs
+  cfg : b'.cfg = b.cfg
+  now : b'.now = b.now
+  clis : b'.clis = b.clis
+  offline : b'.offline = b.offline
+  pendingWills : b'.pendingWills = b.pendingWills
+  out : b'.out = b.out
+
+theorem Pushed.nil (c : Cli) (b : B) (s : Sess) (hs : b.sess? c.cid = some s) : Pushed c b s [] b :=
+  ⟨rfl, by simp, by simp, hs, fun _ _ => rfl, rfl, rfl, rfl, rfl, rfl, rfl, rfl⟩
+
+theorem Pushed.trans {c : Cli} {b b1 b2 : B} {s : Sess} {l1 l2 : List Msg} (h1 : Pushed c b s l1 b1)
+    (h2 : Pushed c b1 { s with queue := pushQ b.now c.v s.queue b.msgs.length l1 } l2 b2) : Pushed c b s (l1 ++ l2) b2 := by
+  refine ⟨h2.retained.trans h1.retained, ?_, ?_, ?_, fun cid hne => (h2.others cid hne).trans (h1.others cid hne),
+    h2.subs.trans h1.subs, h2.cfg.trans h1.cfg, h2.now.trans h1.now, h2.clis.trans h1.clis, h2.offline.trans h1.offline,
+    h2.pendingWills.trans h1.pendingWills, h2.out.trans h1.out⟩
+  · rw [h2.msgs, h1.msgs, List.append_assoc]
+  · rw [h2.ats, h1.ats, h1.now, List.length_append, List.append_assoc, List.replicate_append_replicate]
+  · rw [h2.sess, h1.now, h1.msgs, List.length_append, pushQ_append]
+
+theorem Pushed.setSubs {c : Cli} {b b1 : B} {s : Sess} {l : List Msg} (h : Pushed c b s l b1) (x : List (String × Sub)) :
+    Pushed c { b with subs := x } s l { b1 with subs := x } :=
+  ⟨h.retained, h.msgs, h.ats, h.sess, h.others, rfl, h.cfg, h.now, h.clis, h.offline, h.pendingWills, h.out⟩
+
+theorem pushCopy_spec (c : Cli) (b : B) (s : Sess) (hs : b.sess? c.cid = some s) (m' : Msg) :
+    Pushed c b s [m'] (b.pushCopy c m') := by
+  have hcid : s.cid = c.cid := (sess?_some hs).2
+  unfold B.pushCopy
+  rw [hs]
+  refine ⟨rfl, rfl, rfl, ?_, fun cid hne => ?_, rfl, rfl, rfl, rfl, rfl, rfl, rfl⟩
+  · show (b.setSess _).sess? c.cid = _
+    rw [sess?_setSess, if_pos hcid]
+    rfl
+  · show (b.setSess _).sess? cid = _
+    rw [sess?_setSess, if_neg (by rw [hcid]; exact fun e => hne e.symm)]
+
+theorem pushCopies_spec (c : Cli) (copies : List Msg) (b : B) (s : Sess) (hs : b.sess? c.cid = some s) :
+    Pushed c b s copies (b.pushCopies c copies) := by
+  induction copies generalizing b s with
+  | nil => exact Pushed.nil c b s hs
+  | cons m ms ih =>
+    have h1 := pushCopy_spec c b s hs m
+    exact h1.trans (ih _ _ h1.sess)
+
+/-- one entry of a SUBSCRIBE: its reason code; if refused nothing changes; if granted the subscription is stored and
+    the copies `entryCopies` of the retained messages are pushed -/
+theorem subEntry_spec (c : Cli) (subID : Nat) (topics : List SubTopic) (acc : B × List Nat) (t : SubTopic) (s : Sess)
+    (hs : acc.1.sess? c.cid = some s) :
+    (subEntry c subID topics acc t).2 = acc.2 ++ [subCode acc.1.cfg c topics subID t] ∧
+    (subCode acc.1.cfg c topics subID t ≥ 0x80 → (subEntry c subID topics acc t).1 = acc.1) ∧
+    (¬ subCode acc.1.cfg c topics subID t ≥ 0x80 →
+      Pushed c { acc.1 with subs := putSub acc.1.subs c.cid (subOf topics subID t) } s
+        (entryCopies acc.1.retained (hasSub acc.1.subs c.cid (subOf topics subID t)) (subOf topics subID t) t)
+        (subEntry c subID topics acc t).1) := by
+  unfold subEntry
+  simp only
+  by_cases hcode : subCode acc.1.cfg c topics subID t ≥ 0x80
+  · rw [if_pos hcode]
+    exact ⟨rfl, fun _ => rfl, fun h => absurd hcode h⟩
+  · rw [if_neg hcode]
+    refine ⟨rfl, fun h => absurd h hcode, fun _ => ?_⟩
+    simp only
+    have hs' : ({ acc.1 with subs := putSub acc.1.subs c.cid (subOf topics subID t) } : B).sess? c.cid = some s := hs
+    unfold entryCopies
+    split
+    · rw [hs']
+      simp only
+      have e := pushCopies_spec c ((acc.1.retained.filter (fun tm => subMatches (subOf topics subID t) tm.1)).map
+        (fun tm => replayCopy (subOf topics subID t) tm.2)) _ s hs'
+      unfold B.pushCopies at e
+      rw [List.foldl_map] at e
+      exact e
+    · exact Pushed.nil c _ s hs'
+
+/-- the subscription table after the entries `ts` were processed -/
+def subsAfter (cfg : Cfg) (c : Cli) (topics : List SubTopic) (subID : Nat) :
+    List (String × Sub) → List SubTopic → List (String × Sub)
+  | subs, [] => subs
+  | subs, t :: ts =>
+    if subCode cfg c topics subID t ≥ 0x80 then subsAfter cfg c topics subID subs ts
+    else subsAfter cfg c topics subID (putSub subs c.cid (subOf topics subID t)) ts
+
+/-- the copies replayed by each of the entries `ts`, entry by entry (a refused entry replays nothing) -/
+def subCopiesL (cfg : Cfg) (c : Cli) (topics : List SubTopic) (subID : Nat) (ret : List (String × Msg)) :
+    List (String × Sub) → List SubTopic → List (List Msg)
+  | _, [] => []
+  | subs, t :: ts =>
+    if subCode cfg c topics subID t ≥ 0x80 then [] :: subCopiesL cfg c topics subID ret subs ts
+    else entryCopies ret (hasSub subs c.cid (subOf topics subID t)) (subOf topics subID t) t ::
+      subCopiesL cfg c topics subID ret (putSub subs c.cid (subOf topics subID t)) ts
+
+theorem subFold_spec (c : Cli) (subID : Nat) (topics ts : List SubTopic) (acc : B × List Nat) (s : Sess)
+    (hs : acc.1.sess? c.cid = some s) :
+    (ts.foldl (subEntry c subID topics) acc).2 = acc.2 ++ ts.map (subCode acc.1.cfg c topics subID) ∧
+    Pushed c { acc.1 with subs := subsAfter acc.1.cfg c topics subID acc.1.subs ts } s
+      (subCopiesL acc.1.cfg c topics subID acc.1.retained acc.1.subs ts).flatten
+      (ts.foldl (subEntry c subID topics) acc).1 := by
+  induction ts generalizing acc s with
+  | nil => exact ⟨by simp, Pushed.nil c _ s hs⟩
+  | cons t ts ih =>
+    obtain ⟨h2, href, hgr⟩ := subEntry_spec c subID topics acc t s hs
+    rw [List.foldl_cons]
+    by_cases hcode : subCode acc.1.cfg c topics subID t ≥ 0x80
+    · have e1 := href hcode
+      obtain ⟨ih2, ihp⟩ := ih (subEntry c subID topics acc t) s (by rw [e1]; exact hs)
+      rw [e1] at ih2 ihp
+      refine ⟨?_, ?_⟩
+      · rw [ih2, h2]; simp
+      · simp only [subsAfter, subCopiesL, if_pos hcode, List.flatten_cons, List.nil_append]
+        exact ihp
+    · have hp := hgr hcode
+      obtain ⟨ih2, ihp⟩ := ih (subEntry c subID topics acc t) _ hp.sess
+      rw [hp.cfg, hp.retained, hp.subs] at ihp
+      rw [hp.cfg] at ih2
+      refine ⟨?_, ?_⟩
+      · rw [ih2, h2]; simp
+      · simp only [subsAfter, subCopiesL, if_neg hcode, List.flatten_cons]
+        exact (hp.setSubs _).trans ihp
+
+/-- a whole SUBSCRIBE of a connection that has a session -/
+theorem subscribe_spec (b : B) (conn : String) (pid : Nat) (topics : List SubTopic) (idProp : Nat) (c : Cli) (s : Sess)
+    (hc : b.cli? conn = some c) (hs : b.sess? c.cid = some s) :
+    ∃ b1, b.subscribe conn pid topics idProp =
+        b1.emit conn false (.suback pid (topics.map (subCode b.cfg c topics (subIdOf b.cfg c idProp)))) ∧
+      Pushed c { b with subs := subsAfter b.cfg c topics (subIdOf b.cfg c idProp) b.subs topics } s
+        (subCopiesL b.cfg c topics (subIdOf b.cfg c idProp) b.retained b.subs topics).flatten b1 := by
+  obtain ⟨h2, hp⟩ := subFold_spec c (subIdOf b.cfg c idProp) topics topics (b, []) s hs
+  refine ⟨_, ?_, hp⟩
+  rw [subscribe_eq, hc]
+  simp only [subscribe_no_kick, Bool.false_eq_true, if_false, h2, List.nil_append]
+
+theorem subscribe_retained (b : B) (conn : String) (pid : Nat) (topics : List SubTopic) (idProp : Nat) :
+    (b.subscribe conn pid topics idProp).retained = b.retained := by
+  rw [subscribe_eq]
+  cases hc : b.cli? conn with
+  | none => rfl
+  | some c =>
+    simp only [subscribe_no_kick, Bool.false_eq_true, if_false]
+    show (List.foldl (subEntry c (subIdOf b.cfg c idProp) topics) (b, []) topics).1.retained = b.retained
+    suffices h : ∀ (l : List SubTopic) (acc : B × List Nat),
+        (l.foldl (subEntry c (subIdOf b.cfg c idProp) topics) acc).1.retained = acc.1.retained from h topics (b, [])
+    intro l
+    induction l with
+    | nil => intro acc; rfl
+    | cons t ts ih =>
+      intro acc
+      rw [List.foldl_cons, ih]
+      unfold subEntry
+      simp only
+      split
+      · rfl
+      · simp only
+        split
+        · split
+          · rfl
+          · refine foldl_retained _ ?_ _ _
+            intro bb tm
+            unfold B.pushCopy
+            split <;> rfl
+        · rfl
+
+/-! ### which entry sees the subscription as existing -/
+
+theorem subCopiesL_length (cfg : Cfg) (c : Cli) (topics : List SubTopic) (subID : Nat) (ret : List (String × Msg))
+    (subs : List (String × Sub)) (ts : List SubTopic) : (subCopiesL cfg c topics subID ret subs ts).length = ts.length := by
+  induction ts generalizing subs with
+  | nil => rfl
+  | cons t ts ih =>
+    unfold subCopiesL
+    split <;> simp [ih]
+
+/-- the copies replayed by the entry `t` that follows the entries `pre` -/
+theorem subCopiesL_at (cfg : Cfg) (c : Cli) (topics : List SubTopic) (subID : Nat) (ret : List (String × Msg))
+    (subs : List (String × Sub)) (pre : List SubTopic) (t : SubTopic) (post : List SubTopic) :
+    (subCopiesL cfg c topics subID ret subs (pre ++ t :: post))[pre.length]? =
+      some (if subCode cfg c topics subID t ≥ 0x80 then []
+            else entryCopies ret (hasSub (subsAfter cfg c topics subID subs pre) c.cid (subOf topics subID t))
+                   (subOf topics subID t) t) := by
+  induction pre generalizing subs with
+  | nil =>
+    simp only [List.nil_append, List.length_nil, subsAfter]
+    unfold subCopiesL
+    split <;> simp
+  | cons x xs ih =>
+    simp only [List.cons_append, List.length_cons]
+    unfold subCopiesL subsAfter
+    split
+    · simp only [List.getElem?_cons_succ]; exact ih subs
+    · simp only [List.getElem?_cons_succ]; exact ih _
+
+theorem hasSub_putSub (subs : List (String × Sub)) (cid : String) (sub' sub : Sub) :
+    hasSub (putSub subs cid sub') cid sub =
+      (hasSub subs cid sub || (sub'.share == sub.share && sub'.filter == sub.filter)) := by
+  unfold hasSub putSub
+  rw [List.any_append]
+  simp only [List.any_cons, List.any_nil, beq_self_eq_true, Bool.true_and, Bool.or_false]
+  by_cases hk : (sub'.share == sub.share && sub'.filter == sub.filter) = true
+  · rw [hk]; simp
+  · have hk' : (sub'.share == sub.share && sub'.filter == sub.filter) = false := by simpa using hk
+    rw [hk', Bool.or_false, Bool.or_false]
+    induction subs with
+    | nil => rfl
+    | cons x xs ih =>
+      rw [List.filter_cons]
+      by_cases hx : (x.1 == cid && x.2.share == sub.share && x.2.filter == sub.filter) = true
+      · have hne : (x.1 == cid && x.2.share == sub'.share && x.2.filter == sub'.filter) = false := by
+          rw [Bool.eq_false_iff]
+          intro h'
+          apply hk
+          simp only [Bool.and_eq_true, beq_iff_eq] at hx h' ⊢
+          exact ⟨by rw [← h'.1.2, hx.1.2], by rw [← h'.2, hx.2]⟩
+        simp only [hne, Bool.not_false, if_true, List.any_cons, hx, Bool.true_or]
+      · have hx' : (x.1 == cid && x.2.share == sub.share && x.2.filter == sub.filter) = false := by simpa using hx
+        split
+        · simp only [List.any_cons, hx', Bool.false_or]; exact ih
+        · simp only [List.any_cons, hx', Bool.false_or]; exact ih
+
+/-- an entry finds its subscription existing iff it was in the table before the SUBSCRIBE or an earlier granted entry
+    of the same SUBSCRIBE has the same share name and filter -/
+theorem hasSub_subsAfter (cfg : Cfg) (c : Cli) (topics : List SubTopic) (subID : Nat) (subs : List (String × Sub))
+    (pre : List SubTopic) (sub : Sub) :
+    hasSub (subsAfter cfg c topics subID subs pre) c.cid sub =
+      (hasSub subs c.cid sub ||
+        pre.any (fun x => !(decide (subCode cfg c topics subID x ≥ 0x80)) &&
+          ((splitShare x.name).1 == sub.share && (splitShare x.name).2 == sub.filter))) := by
+  induction pre generalizing subs with
+  | nil => simp [subsAfter]
+  | cons x xs ih =>
+    unfold subsAfter
+    by_cases hcode : subCode cfg c topics subID x ≥ 0x80
+    · rw [if_pos hcode, ih]
+      simp [hcode]
+    · rw [if_neg hcode, ih, hasSub_putSub]
+      simp only [List.any_cons, hcode, decide_false, Bool.not_false, Bool.true_and, Bool.or_assoc]
+      rfl
+
+theorem lastOf_mem (topics : List SubTopic) (t : SubTopic) (ht : t ∈ topics) :
+    lastOf topics t ∈ topics ∧ (lastOf topics t).name = t.name := by
+  unfold lastOf
+  cases h : (topics.filter (fun x => x.name == t.name)).getLast? with
+  | none =>
+    have : t ∈ topics.filter (fun x => x.name == t.name) := List.mem_filter.2 ⟨ht, by simp⟩
+    rw [List.getLast?_eq_none_iff] at h
+    rw [h] at this
+    cases this
+  | some x =>
+    have hx := List.mem_filter.1 (List.mem_of_getLast? h)
+    exact ⟨hx.1, by simpa using hx.2⟩
+
+/-- when the name of the entry occurs once in the SUBSCRIBE the entry supplies its own options -/
+theorem lastOf_unique (topics : List SubTopic) (t : SubTopic) (ht : t ∈ topics)
+    (hu : ∀ x ∈ topics, x.name = t.name → x = t) : lastOf topics t = t :=
+  hu _ (lastOf_mem topics t ht).1 (lastOf_mem topics t ht).2
+
+/-- a granted entry is acknowledged with the QoS of the stored subscription -/
+theorem subCode_granted (cfg : Cfg) (c : Cli) (topics : List SubTopic) (subID : Nat) (t : SubTopic)
+    (h : ¬ subCode cfg c topics subID t ≥ 0x80) : subCode cfg c topics subID t = (subOf topics subID t).qos := by
+  unfold subCode at h ⊢
+  simp only at h ⊢
+  split at h
+  · omega
+  · next h3 =>
+    rw [if_neg h3] at *
+    split at h
+    · omega
+    · next h2 =>
+      rw [if_neg h2] at *
+      split at h
+      · omega
+      · next h1 => rw [if_neg h1]; rfl
+
+/-- every per-entry list of `subCopiesL` is empty (refused entry) or the `entryCopies` of one of the entries -/
+theorem mem_subCopiesL (cfg : Cfg) (c : Cli) (topics : List SubTopic) (subID : Nat) (ret : List (String × Msg))
+    (subs : List (String × Sub)) (ts : List SubTopic) (l : List Msg)
+    (h : l ∈ subCopiesL cfg c topics subID ret subs ts) :
+    l = [] ∨ ∃ t ∈ ts, ∃ existed, l = entryCopies ret existed (subOf topics subID t) t := by
+  induction ts generalizing subs with
+  | nil => cases h
+  | cons x xs ih =>
+    unfold subCopiesL at h
+    split at h
+    · rcases List.mem_cons.1 h with rfl | h
+      · exact .inl rfl
+      · rcases ih subs h with e | ⟨t, ht, ex, e⟩
+        · exact .inl e
+        · exact .inr ⟨t, List.mem_cons_of_mem _ ht, ex, e⟩
+    · rcases List.mem_cons.1 h with rfl | h
+      · exact .inr ⟨x, List.mem_cons_self, _, rfl⟩
+      · rcases ih _ h with e | ⟨t, ht, ex, e⟩
+        · exact .inl e
+        · exact .inr ⟨t, List.mem_cons_of_mem _ ht, ex, e⟩
+
+/-- the topic the alias step resolves to: the topic name of the packet if it has one, else the name bound to its alias -/
+theorem aliasRes_topic {cfg : Cfg} {c : Cli} {r : PubReq} {t : String} {c2 : Cli} (h : aliasRes cfg c r = .ok (t, c2)) :
+    (r.topic ≠ "" → t = r.topic) ∧
+    (r.topic = "" → ∃ a p, r.alias = some a ∧ c.aliasIn.find? (fun p => p.1 == a) = some p ∧ t = p.2) := by
+  unfold aliasRes at h
+  by_cases ht : r.topic = ""
+  · have ht' : (r.topic == "") = true := by simpa using ht
+    refine ⟨fun hne => absurd ht hne, fun _ => ?_⟩
+    split at h
+    · split at h
+      · next a ha =>
+        split at h
+        · cases h
+        · split at h
+          · next p1 t1 hf =>
+            split at h
+            · cases h
+            · simp only [Except.ok.injEq, Prod.mk.injEq] at h
+              exact ⟨a, (p1, t1), ha, hf, h.1.symm⟩
+          · cases h
+      · cases h
+    · cases h
+  · have ht' : (r.topic == "") = false := by simpa using ht
+    refine ⟨fun _ => ?_, fun h0 => absurd h0 ht⟩
+    split at h
+    · split at h
+      · split at h
+        · cases h
+        · simp only [ht', Bool.false_eq_true, if_false, Except.ok.injEq, Prod.mk.injEq] at h
+          exact h.1.symm
+      · simp only [ht', Bool.false_eq_true, if_false, Except.ok.injEq, Prod.mk.injEq] at h
+        exact h.1.symm
+    · simp only [ht', Bool.false_eq_true, if_false, Except.ok.injEq, Prod.mk.injEq] at h
+      exact h.1.symm
+
+/-! ### every wire step -/
+
+/-- a wire step changes the retained map either by storing the message of the accepted PUBLISH it is, or by storing
+    wills registered before the step (a connection ends, a session ends, a delayed will falls due) — or not at all -/
+theorem step_retained (b : B) (st : Step) :
+    (∃ r m, st = .publish r ∧ Accepted b r m ∧ (stepB b st).retained = retStore b.retained m) ∨
+    WillsOnly b (stepB b st) := by
+  cases st with
+  | connect r =>
+    simp only [stepB]
+    split
+    · exact .inr (.of_eq rfl)
+    · exact .inr (willsOnly_connect b r)
+  | subscribe c p t i => exact .inr (.of_eq (subscribe_retained b c p t i))
+  | unsubscribe c p t => exact .inr (.of_eq (unsubscribe_retained b c p t))
+  | publish r =>
+    rcases publish_retained_cases b r with ⟨m, ha, e⟩ | h
+    · exact .inl ⟨r, m, rfl, ha, e⟩
+    · exact .inr h
+  | pubrel c p => exact .inr (.of_eq (pubrelIn_retained b c p))
+  | ack c i => exact .inr (.of_eq (ackOut_retained b c i))
+  | pubrec c i k => exact .inr (.of_eq (pubrecOut_retained b c i k))
+  | disconnect c se code => exact .inr (.of_eq (disconnectIn_retained b c se code))
+  | close c => exact .inr ((Fired.refl b).closeIn c).ret
+  | apiPublish m => exact .inr (.of_eq (apiPublish_retained b m))
+  | apiTerminate cid => exact .inr ((Fired.refl b).apiTerminate cid).ret
+  | apiExpire => exact .inr (Fired.refl b).apiExpire.ret
+  | apiBackdate cid s => exact .inr (.of_eq (apiBackdate_retained b cid s))
+  | sleep ms => exact .inr ((Fired.refl b).sleep ms).ret
+  | pump => exact .inr (.of_eq (pumpAll_retained b))
+
+theorem step_retained_fold (b : B) (st : Step) :
+    ∃ ms : List Msg, (stepB b st).retained = ms.foldl retStore b.retained := by
+  rcases step_retained b st with ⟨_, m, _, _, e⟩ | ⟨ws, _, e⟩
+  · exact ⟨[m], e⟩
+  · exact ⟨ws, e⟩
+
+theorem retOK_step {b : B} (h : RetOK b.retained) (st : Step) : RetOK (stepB b st).retained := by
+  obtain ⟨ms, e⟩ := step_retained_fold b st
+  rw [e]
+  exact h.foldl ms
+
+theorem retOK_run {b : B} (h : RetOK b.retained) (steps : List Step) : RetOK (runB b steps).retained := by
+  induction steps generalizing b with
+  | nil => exact h
+  | cons s ss ih => exact ih (retOK_step h s)
+
+theorem reachable_retOK (cfg : Cfg) (steps : List Step) : RetOK (runB { cfg := cfg } steps).retained :=
+  retOK_run retOK_nil steps
+
+/-! ### histories -/
+
+/-- a history of wire steps from `b` to `b'` during which the retained map is changed by accepted PUBLISHes only:
+    every step is an accepted PUBLISH (its message is listed) or a step that leaves the retained map as it is -/
+inductive PubHist : B → List Step → List Msg → B → Prop
+  | nil (b : B) : PubHist b [] [] b
+  | accepted {b : B} {r : PubReq} {m : Msg} {ss : List Step} {ms : List Msg} {b' : B} :
+      Accepted b r m → PubHist (b.publish r) ss ms b' → PubHist b (.publish r :: ss) (m :: ms) b'
+  | quiet {b : B} {st : Step} {ss : List Step} {ms : List Msg} {b' : B} :
+      (stepB b st).retained = b.retained → PubHist (stepB b st) ss ms b' → PubHist b (st :: ss) ms b'
+
+theorem PubHist.run {b b' : B} {ss : List Step} {ms : List Msg} (h : PubHist b ss ms b') :
+    b' = runB b ss ∧ b'.retained = ms.foldl retStore b.retained := by
+  induction h with
+  | nil b => exact ⟨rfl, rfl⟩
+  | accepted ha _ ih => exact ⟨ih.1, by rw [ih.2, publish_accepted_retained ha]; rfl⟩
+  | quiet hq _ ih => exact ⟨ih.1, by rw [ih.2, hq]⟩
 
 end GmqttVerif.Broker
